@@ -2688,7 +2688,17 @@ impl<'a> Parser<'a> {
         mut expr: Expression,
         start: Span,
     ) -> Result<Expression, JsError> {
-        while self.match_token(&TokenKind::As) {
+        loop {
+            // `x satisfies T` (TypeScript 4.9+) checks the type and yields the operand unchanged;
+            // on a new line `satisfies` is an ordinary identifier starting the next statement
+            if self.check_keyword("satisfies") && !self.lexer.had_newline_before() {
+                self.advance();
+                self.parse_type_annotation()?;
+                continue;
+            }
+            if !self.match_token(&TokenKind::As) {
+                break;
+            }
             // Handle "as const" - const assertion (TypeScript 3.4+)
             // This is a compile-time feature; at runtime we just return the value unchanged
             if self.match_token(&TokenKind::Const) {
